@@ -95,13 +95,15 @@ Qed.
 (* ---- missing_shadow_reported *)
 Theorem missing_shadow_reported ph fuel sp base c b rep w d :
   nanoc ph fuel sp base = NExit c b rep w -> front_ok ph = true ->
-  In d (pfns (sp_prog sp)) -> fname d <> pmain (sp_prog sp) -> has_shadow sp (fname d) = false ->
+  In d (pfns (sp_prog sp)) -> fname d <> pmain (sp_prog sp) -> ~ In (fname d) (sp_imported sp) -> has_shadow sp (fname d) = false ->
   In (fname d) w.
 Proof.
-  unfold nanoc. intros H F Hd Hm Hs. rewrite F in H. simpl in H.
+  unfold nanoc. intros H F Hd Hm Hi Hs. rewrite F in H. simpl in H.
   assert (M : In (fname d) (missing_shadow sp)).
   { unfold missing_shadow. apply in_map. apply filter_In. split; [exact Hd|]. rewrite Hs.
-    destruct (N.eqb (fname d) (pmain (sp_prog sp))) eqn:E; [apply N.eqb_eq in E; contradiction|reflexivity]. }
+    destruct (N.eqb (fname d) (pmain (sp_prog sp))) eqn:E; [apply N.eqb_eq in E; contradiction|].
+    destruct (existsb (N.eqb (fname d)) (sp_imported sp)) eqn:E2; [|reflexivity].
+    exfalso. apply Hi. apply existsb_exists in E2. destruct E2 as [y [Hy Q]]. apply N.eqb_eq in Q. subst. exact Hy. }
   destruct (run_interp fuel sp base) as [rs sk stk| | | |? ?]; try discriminate.
   - destruct (all_passed rs); [destruct (later_ok ph)|]; inversion H; subst; exact M.
   - inversion H; subst; exact M.
